@@ -609,7 +609,9 @@ func cmdClient(args []string) int {
 			}
 		}
 		unitMs := int(unit / time.Millisecond)
-		stalled := (r.Status == "ok" || r.Status == "watchdog") && r.MaxStallMs >= float64(unitMs)
+		// the monitor under-approximates (it sees the lateness of ONE sleeping goroutine, not the sum of the delays of the writer, the
+		// peer's answer and the reader): half a unit measured means the slack of a unit or two the timing premises have is gone
+		stalled := (r.Status == "ok" || r.Status == "watchdog") && r.MaxStallMs >= float64(unitMs)/2
 		if (failed > 0 && onlyTiming) || ((failed > 0 || r.Status == "watchdog") && stalled) {
 			retried++
 			results[i] = runOne(jobs[i], 2*unitMs)
@@ -618,7 +620,7 @@ func cmdClient(args []string) int {
 			for _, v := range r2.Verdicts {
 				f2 = f2 || !v.OK
 			}
-			if f2 && r2.MaxStallMs >= float64(2*unitMs) {
+			if f2 && r2.MaxStallMs >= float64(unitMs) {
 				retried++
 				results[i] = runOne(jobs[i], 4*unitMs)
 			}
